@@ -139,6 +139,7 @@ def eval_geom(g, surf_side, cell_in):
 
 DEFAULT_FEATURES = frozenset({
     "transforms", "periodic", "boundary", "universes", "complements", "thermal", "data_placement", "shortcuts", "message",
+    "plain_params",
 })
 
 
@@ -214,7 +215,24 @@ def generate(rng, ncells=None, features=None):
             c["imp"][p] = float(rng.choice([0, 1, 1, 1, 2, 4])) if rng.random() < 0.85 else fnum(rng, positive=True, small=True)
         if rng.random() < 0.4:
             c["vol"] = fnum(rng, positive=True)
+        if "plain_params" in F and rng.random() < 0.25:
+            c["tmp"] = rng.choice([2.53e-8, 2.5e-8, 3.1e-8, 5.17e-8])
+        elif "plain_params" in F and rng.random() < 0.2:
+            # parameters MontePy keeps in the tree only, several of them sharing a keyword with another particle
+            # designator or number (seeded change C01c dropped every occurrence after the first on write)
+            pools = [[("tmp1", "2.53e-8"), ("tmp2", "3.1e-8")], [("pd1", "0.5"), ("pd2", "1")], [("ext:n", "0.5")],
+                     [("wwn1:n", "0.5"), ("wwn2:n", "0.25")], [("dxc1:n", "0.5"), ("dxc2:n", "1")]]
+            if "p" in mode:
+                pools += [[("fcl:n", "1"), ("fcl:p", "0.5")], [("ext:n", "0.5"), ("ext:p", "0.25")], [("elpt:n", "1e-3"), ("elpt:p", "1e-2")]]
+            c["extra_params"] = rng.choice(pools)
         cells.append(c)
+    if "shortcuts" in F and len(cells) >= 4 and rng.random() < 0.3:
+        # importances that form a progression over the cells (written with I / ILOG / M shortcuts in the data block)
+        p = rng.choice(mode)
+        kind = rng.choice(["ar", "ge2", "ge10"])
+        for k, c in enumerate(cells[:-1]):
+            c["imp"][p] = float({"ar": k + 1, "ge2": 2 ** k, "ge10": 10 ** k}[kind])
+        cells[-1]["imp"][p] = 0.0
     if len(mode) > 1 and rng.random() < 0.3:
         # all particles share their importances (so that one entry imp:n,p can give them)
         for c in cells:
@@ -281,6 +299,12 @@ def generate(rng, ncells=None, features=None):
 
 
 # --------------------------------------------------------------------------- words
+# I / ILOG / M shortcuts in generated per-cell vectors.  Off until the repair of C08-F3 lands (re-compression of a
+# list that holds a multiply or interpolate shortcut is not idempotent: a genuine defect, recorded, being repaired);
+# with it on, C19 reports that defect on the unchanged tree.
+PROGRESSION_SHORTCUTS = False
+
+
 def _compress(rng, vals, shortcuts):
     """words of a per-cell data vector (None = jump); optionally uses R and J shortcuts"""
     words = []
@@ -298,6 +322,33 @@ def _compress(rng, vals, shortcuts):
                 words += ["j"] * run
         else:
             w = spell(rng, v, False) if isinstance(v, float) else str(v)
+            # interpolation and multiplication shortcuts where the values happen to form a progression
+            if PROGRESSION_SHORTCUTS and shortcuts and run == 1 and isinstance(v, (int, float)) and v > 0:
+                k = i
+                num = lambda x: isinstance(x, (int, float)) and not isinstance(x, bool)  # noqa: E731
+                while k + 1 < len(vals) and num(vals[k + 1]):
+                    k += 1
+                seq = vals[i : k + 1]
+                n_ar = n_ge = 1
+                while n_ar < len(seq) - 1 and abs((seq[n_ar + 1] - seq[n_ar]) - (seq[1] - seq[0])) < 1e-12 * max(1, abs(seq[1])):
+                    n_ar += 1
+                if all(x > 0 for x in seq[:2]) and len(seq) > 1:
+                    while n_ge < len(seq) - 1 and seq[n_ge + 1] > 0 and abs(seq[n_ge + 1] / seq[n_ge] - seq[1] / seq[0]) < 1e-12:
+                        n_ge += 1
+                r = rng.random()
+                sp = lambda x: spell(rng, float(x), False) if isinstance(v, float) else str(x)  # noqa: E731
+                if len(seq) >= 3 and n_ar >= 2 and seq[1] != seq[0] and r < 0.5:
+                    words += [w, f"{n_ar - 1}i" if n_ar > 2 or rng.random() < 0.5 else "i", sp(seq[n_ar])]
+                    i += n_ar + 1
+                    continue
+                if len(seq) >= 3 and n_ge >= 2 and seq[1] != seq[0] and r < 0.8:
+                    words += [w, f"{n_ge - 1}ilog", sp(seq[n_ge])]
+                    i += n_ge + 1
+                    continue
+                if len(seq) >= 2 and seq[0] != 0 and seq[1] / seq[0] in (2, 3, 4, 5, 10) and r < 0.9:
+                    words += [w, f"{int(seq[1] / seq[0])}m"]
+                    i += 2
+                    continue
             if shortcuts and run > 2 and rng.random() < 0.7:
                 words += [w, f"{run - 1}r"]
             else:
@@ -342,6 +393,12 @@ def cards(gp, rng, redundant=0.15, shortcuts=True):
             params.append(("fill", v))
         if c["trcl"] is not None:
             params.append(("trcl", [str(c["trcl"])]))
+        for k, v in c.get("extra_params") or []:
+            params.append((k, [v]))
+        if c.get("tmp") is not None:
+            # a parameter MontePy keeps in the tree only (no modifier object): when it stands last, a modifier
+            # that starts printing after an edit is written directly behind it (seeded change C07b)
+            params.append(("tmp", [spell(rng, c["tmp"], False)]))
         rng.shuffle(params)
         out["cells"].append({"words": w, "params": params, "dollar": c.get("dollar")})
     for s in gp["surfaces"]:
@@ -426,7 +483,10 @@ def layout_card(rng, card, limit, style):
         else:
             gap = "" if (w == ")" or words[i - 1] in ("(", "#")) else " "
             brk = False
-        if brk or len(cur) + len(gap) + len(w2) > width:
+        # `#` and its operand are one unit of G (no gap, hence no line break, between them): room for the operand is
+        # reserved when the `#` is placed
+        need = len(w2) + (len(words[i + 1]) if w == "#" and i + 1 < len(words) else 0)
+        if words[i - 1] != "#" and (brk or len(cur) + len(gap) + need > width):
             if style == "random":
                 r = rng.random()
                 if r < 0.25 and len(cur) + 2 <= width:
